@@ -1031,7 +1031,9 @@ func (c *Ctx) RegionOrigin() []core.Ob {
 		s.Status, s.Got = core.Violated, "WriteSector not found"
 		return append(obs, s)
 	}
-	seeks := callsIn(ws, func(nm string, cc *ssa.CallCommon) bool { return cc.IsInvoke() && cc.Method.Name() == "Seek" && derivesFromField(cc.Value, "f") })
+	seeks := callsIn(ws, func(nm string, cc *ssa.CallCommon) bool {
+		return cc.IsInvoke() && cc.Method.Name() == "Seek" && derivesFromField(cc.Value, "f")
+	})
 	if len(seeks) != 1 {
 		s.Status, s.Got = core.Violated, fmt.Sprintf("%d Seek calls on the file in WriteSector", len(seeks))
 		return append(obs, s)
